@@ -142,9 +142,17 @@ where
         let mut serializer = serializer.serialize_map(None)?;
 
         let ext = self.0.extensions();
-        let data = ext
-            .get::<FormattedFields<N>>()
-            .expect("Unable to find FormattedFields in extensions; this is a bug");
+        let data = match ext.get::<FormattedFields<N>>() {
+            Some(data) => data,
+            // A span that was created before this subscriber was installed
+            // (for instance, one swapped in through a `reload` handle) has no
+            // `FormattedFields` until something is recorded on it: it is
+            // listed by name only.
+            None => {
+                serializer.serialize_entry("name", self.0.metadata().name())?;
+                return serializer.end();
+            }
+        };
 
         // TODO: let's _not_ do this, but this resolves
         // https://github.com/tokio-rs/tracing/issues/391.
